@@ -39,7 +39,7 @@ def run(shard):
     import gen_lines
     import lnotab_models as M
     cdm = H.import_repo()
-    from code_data import _line_mapping, _code_data
+    _line_mapping, _code_data = H.lib("_line_mapping", "_code_data")
     CodeData = cdm.CodeData
     state = {"case": None, "origin": None}
 
@@ -166,10 +166,13 @@ def run(shard):
 
     # ---- real tables + model fidelity
     import dis
+    stress_items = []
     for case, id_, code, text in corpus.iter_cases(shard):
         state["case"] = corpus.replay_case(case)
         state["origin"] = "compiler_emitted"
         for c, _d in H.iter_code(code):
+            if len(stress_items) < 40 and 8 <= len(getattr(c, H.LINE_ATTR)) <= 400:
+                stress_items.append((dict(state["case"], code_name=c.co_name), c))
             H.count("real_tables")
             check_table(c)
             # fidelity of the assembler model on this table
@@ -184,6 +187,25 @@ def run(shard):
             H.count("model_validation_tables")
             if mt == getattr(c, H.LINE_ATTR):
                 H.count("model_validation_matches")
+
+    if len(stress_items) >= 2:
+        # the codec again, re-entrantly and from several threads: the re-encoded table must not depend on the interleaving
+        import stress
+        rng = H.rng_for(shard.get("seed", 0), "stress", shard.get("shard", 0))
+        if len(stress_items) > 10:
+            stress_items = rng.sample(stress_items, 10)
+
+        def codec(c):
+            m = _line_mapping.to_line_mapping(c)
+            return (sorted(m.offset_to_line.items()), _line_mapping.from_line_mapping(m))
+
+        def same(a, b):
+            if a[0] != b[0]:
+                return "decoded mapping differs"
+            if a[1] != b[1]:
+                return "re-encoded table %s vs %s" % (list(a[1][:24]), list(b[1][:24]))
+            return None
+        stress.stress("C10", stress_items, codec, same, rng, label="to_line_mapping + from_line_mapping")
 
 
 def offline(ctx, results):
